@@ -274,18 +274,7 @@ head:
 	}
 
 	// get last lineText
-	if len(l.Lines) > 0 {
-		lastLine := &(l.Lines[len(l.Lines)-1])
-		startIdx := lastLine.StartIdx
-
-		// skip INDENTS when inserting source text
-		if l.IndentType == IndentSpace {
-			startIdx += 4 * lastLine.Indents
-		} else if l.IndentType == IndentTab {
-			startIdx += lastLine.Indents
-		}
-		lastLine.LineText = l.Source[startIdx:endCursor]
-	}
+	l.EndLine(endCursor)
 
 	// append next line info
 	l.Lines = append(l.Lines, LineInfo{
@@ -320,6 +309,27 @@ head:
 		goto head
 	}
 	return nil
+}
+
+// EndLine - record the text of the current (last) line, which ends before endCursor.
+// Called wherever a line ends: between statements, and inside a multi-line text or comment
+func (l *Lexer) EndLine(endCursor int) {
+	if len(l.Lines) == 0 {
+		return
+	}
+	lastLine := &(l.Lines[len(l.Lines)-1])
+	startIdx := lastLine.StartIdx
+
+	// skip INDENTS when inserting source text
+	if l.IndentType == IndentSpace {
+		startIdx += 4 * lastLine.Indents
+	} else if l.IndentType == IndentTab {
+		startIdx += lastLine.Indents
+	}
+	if startIdx > endCursor {
+		startIdx = endCursor
+	}
+	lastLine.LineText = l.Source[startIdx:endCursor]
 }
 
 // util
